@@ -223,6 +223,7 @@ func (w *world) hang(what string) {
 	fmt.Printf("stat hang=1\n")
 	fmt.Fprintf(os.Stderr, "harness: call did not return: %s\n", what)
 	w.hung = true
+	os.Exit(3)
 }
 
 // ---------------------------------------------------------------- MQTT 4.7 matching (for predicting a blocking Publish only)
@@ -410,6 +411,16 @@ func (w *world) opSetupEnd(timeout bool) {
 func (w *world) opClosed(n int) {
 	cl := w.client(n)
 	if cl.c == nil || !cl.term {
+		return
+	}
+	if w.pendCli != nil && w.pendOld == n {
+		if w.pendKT {
+			return
+		}
+		// the waiting Setup continues by itself as soon as the channel is closed
+		cl.c.VerifMarkClosed()
+		w.emit(fmt.Sprintf("closed %d", n), "ok", false)
+		w.opSetupEnd(false)
 		return
 	}
 	cl.c.VerifMarkClosed()
